@@ -140,7 +140,7 @@ impl ErrProbe for UserErr {
 }
 
 /// one parse result as a JSON record {k,i,pd,s,uc,ua}
-fn enc_result<E: Probe, X: ErrProbe>(r: &Result<Result<E, X>, String>, calls: &[String]) -> String {
+pub fn enc_result<E: Probe, X: ErrProbe>(r: &Result<Result<E, X>, String>, calls: &[String]) -> String {
     let ua: Vec<String> = calls.iter().map(|c| jcps(c)).collect();
     match r {
         Err(p) => format!("{{\"k\":\"panic\",\"i\":0,\"pd\":false,\"s\":{},\"uc\":{},\"ua\":{}}}", jcps(p), calls.len(), jlist(&ua)),
@@ -181,4 +181,13 @@ where
     let ins_j: Vec<String> = ins.iter().map(|s| jcps(s)).collect();
     o.line(&format!("{{\"op\":\"parse\",\"def\":{},\"ins\":{},\"res\":{},\"tf_same\":{},\"tf\":{}}}",
         def, jlist(&ins_j), jlist(&res), jbool(tf_same), jlist(&tf)));
+}
+
+/// parse one string with FromStr; JSON record of the result
+pub fn parse_one<E, X>(s: &str) -> String
+where E: Probe + core::str::FromStr<Err = X>, X: ErrProbe {
+    user_err_take();
+    let r = catch(|| <E as core::str::FromStr>::from_str(s));
+    let c = user_err_take();
+    enc_result(&r, &c)
 }
